@@ -38,7 +38,7 @@ m = {
         "source_commits": [],
         "add_only": True,
     },
-    "engines": [{"name": e, "path": f"/verif/overlay/{e}", "serves_properties": sorted(ps), "kind_free_text": "deterministic simulation engine inside the single verifsim binary"} for e, ps in sorted(engines.items())],
+    "engines": [{"name": e, "path": {"crashsim": "/verif/overlay/repsim/crash.go"}.get(e, f"/verif/overlay/{e}"), "serves_properties": sorted(ps), "kind_free_text": "deterministic simulation engine inside the single verifsim binary"} for e, ps in sorted(engines.items())],
     "checks": checks,
     "not_applicable": na,
     "notes": "Technique: deterministic simulation with fault injection. One integer (VERIF_SEED) decides every generated plan, schedule and fault. See DESIGN.md.",
